@@ -818,7 +818,11 @@ func init() {
 
 	register(&Prop{ID: "C05",
 		Gen: func(r *RNG, tier string, run int) *Trace {
-			return genDecoderTrace(r, dgen{nOps: 50, sizes: "any", malformed: 0.33, readBias: 5, resetW: 1})
+			g := dgen{nOps: 50, sizes: "any", malformed: 0.33, readBias: 5, resetW: 1}
+			if run%1597 == 11 || run%1597 == 811 {
+				g.geomClass, g.nOps = "wide", 40 // volume stratum
+			}
+			return genDecoderTrace(r, g)
 		},
 		Exec: execDecoder("C05"),
 		NonTriv: func(res *Result) bool {
@@ -832,7 +836,11 @@ func init() {
 		Gen: func(r *RNG, tier string, run int) *Trace {
 			// a third of the faulting writers also answers (0, nil) now and then:
 			// C06 only presupposes that the writer returns
-			return genDecoderTrace(r, dgen{nOps: 30, sizes: "huge", malformed: 0.1, readBias: 3, resetW: 1, wfaults: r.Chance(0.3), retry: 0.5, nilWrites: run%3 == 0, deadWriter: run%5 == 2})
+			g := dgen{nOps: 30, sizes: "huge", malformed: 0.1, readBias: 3, resetW: 1, wfaults: r.Chance(0.3), retry: 0.5, nilWrites: run%3 == 0, deadWriter: run%5 == 2}
+			if run%1597 == 11 || run%1597 == 811 {
+				g.geomClass, g.sizes = "wide", "any" // volume stratum
+			}
+			return genDecoderTrace(r, g)
 		},
 		Exec:     execDecoder("C06"),
 		NonTriv:  func(res *Result) bool { return pr(res, "arg_gt_bs_minus_ws", "seq_gt_bs_minus_ws") },
@@ -868,6 +876,9 @@ func init() {
 			}
 			// every third run: plain writes and trailing literals larger than the
 			// free space (Decoder.Write chunks them; sequences still fit)
+			if run%1597 == 11 || run%1597 == 811 {
+				cls = "wide" // volume stratum: flushes of hundreds of KiB meet the faults
+			}
 			return genDecoderTrace(r, dgen{target: "decoder", nOps: 30, sizes: "fit", readBias: 4, resetW: 1, wfaults: true, retry: 0.9, firstFault: run % 14, geomClass: cls, bigLits: run%3 == 2})
 		},
 		Exec: execDecoder("C18"),
